@@ -221,6 +221,10 @@ class C04(PropCheck):
                    n_calls=len(seq._calls) + len(seq._to_build_calls) - 1)
         # the original call log, before anything else touches the sequence
         run["seqin"] = impl.seqin_term(seq, seq_name, defaults, qubits_d)
+        # phase_shift(phi=...) by keyword: the code at hand raises IndexError, a
+        # repaired serializer would not; the model takes no side (finding 3)
+        run["phi_kw"] = any(c.name.startswith("phase_shift") and not c.args
+                            for c in list(seq._calls) + list(seq._to_build_calls))
 
         # ---- abstract representation
         js = None
@@ -308,6 +312,8 @@ class C04(PropCheck):
     # ------------------------------------------------------------------ Coq side
     def coq_item(self, case, run):
         doc = run["doc"]
+        if run.get("phi_kw"):
+            return dict(skip=True)
         if doc is None:
             return dict(seqin=run["seqin"], doc=None)
         rec = run.get("rec")
@@ -337,6 +343,9 @@ class C04(PropCheck):
         ]
         pairs = []
         for i, it in enumerate(items):
+            if it.get("skip"):
+                pairs.append("(SL [], SL [])")
+                continue
             t.append(f"Definition s{i} : seqin := {it['seqin']}.")
             if it["doc"] is None:
                 pairs.append(f"(SL [SB (enc_none s{i})], SL [SB true])")
